@@ -403,28 +403,22 @@ func baseSetMetatable(L *LState) int {
 
 func baseToNumber(L *LState) int {
 	base := L.OptInt(2, 10)
-	noBase := L.Get(2) == LNil
 
 	switch lv := L.CheckAny(1).(type) {
 	case LNumber:
 		L.Push(lv)
 	case LString:
-		str := strings.Trim(string(lv), " \n\t")
-		if strings.Index(str, ".") > -1 {
-			if v, err := strconv.ParseFloat(str, LNumberBit); err != nil {
+		str := strings.Trim(string(lv), " \n\t\v\f\r")
+		if base == 10 { // standard conversion: the reader of the lexer and of arithmetic
+			if v, err := parseNumber(str); err != nil {
 				L.Push(LNil)
 			} else {
-				L.Push(LNumber(v))
+				L.Push(v)
 			}
+		} else if v, err := strconv.ParseInt(str, base, LNumberBit); err != nil {
+			L.Push(LNil)
 		} else {
-			if noBase && strings.HasPrefix(strings.ToLower(str), "0x") {
-				base, str = 16, str[2:] // Hex number
-			}
-			if v, err := strconv.ParseInt(str, base, LNumberBit); err != nil {
-				L.Push(LNil)
-			} else {
-				L.Push(LNumber(v))
-			}
+			L.Push(LNumber(v))
 		}
 	default:
 		L.Push(LNil)
